@@ -23,7 +23,7 @@ QUICK_VARIANTS = ["rel", "w32"]
 THOROUGH_VARIANTS = ["rel", "w32", "fast", "dbg"]
 QUICK_CAP = 400          # quick tier: lines kept per (build, reduction function, edition) (stride subset) ...
 QUICK_CAP_OTHER = 120    # ... and per (build, other function, edition)
-THOROUGH_CAP = {"rel": 4000, "w32": 3000, "fast": 1200, "dbg": 1200}
+THOROUGH_CAP = {"rel": 2000, "w32": 1500, "fast": 600, "dbg": 600}
 SHARD = 60000            # lines per TLC run
 DRV_TIMEOUT = 900
 
@@ -374,6 +374,7 @@ def run(ctx):
                 ev.cov["distinct_nontrivial"] = 0
                 ev.cov["rule"] = "no verdict"
                 return
+        vlib.log("[C05] shard %d: %d lines, %d rejected, %.0f s" % (s0 // SHARD, len(part), len(b), res.wall))
         bad += [s0 + i for i in b]
         n_eval_total += n_eval
         states += res.distinct
